@@ -536,6 +536,49 @@ pub fn cross_kind_corpus() -> Vec<String> {
     v
 }
 
+/// K-f5 corpus: addresses carry no kind tag.  `Ck<key>` is the chunk whose BYTES are address preimage `key` (`Ck1` the 48
+/// public-key bytes of owner 0, `Ck2` meta ‖ pk of register 0): paid upload / replicated copy on a key not held, then
+/// the owner's scratchpad / transactions / register on every path; and the reverse (the mutable record held, the chunk
+/// uploaded or replicated); a mismatched presentation of such a chunk.
+pub fn squat_corpus() -> Vec<String> {
+    let pay = format!("{};0.1.2", GOOD.join(","));
+    let bad = "0.0.1.e.1.1.5,1.1.1.f.1.1.2,2.2.1.f.1.1.3;0.1.2";
+    let hists: Vec<(&str, Vec<String>)> = vec![
+        ("-", vec![format!("c chunkp 1 Ck1 {pay}"), format!("c padp 1 S0.3.v {pay}"), "c pad 1 S0.3.v -".into(), "r pad 1 S0.3.v -".into(),
+                   format!("c txp 1 T0.1.v {pay}"), format!("c txp 1 T0.1.v {bad}"), "r tx 1 T0.1.v -".into(), format!("c chunkp 1 Ck1 {pay}")]),
+        ("-", vec!["r chunk 1 Ck1 -".into(), "r pad 1 S0.3.v -".into(), "r tx 1 T0.1.v,0.2.v -".into()]),
+        ("-", vec![format!("c chunkp 2 Ck2 {pay}"), format!("c regp 2 R0.g.1v {pay}"), format!("c regp 2 R0.g.1v {bad}"), "c reg 2 R0.g.1v -".into(), "r reg 2 R0.g.1v -".into()]),
+        ("-", vec!["r chunk 5 Ck5 -".into(), "r reg 5 R1.g.1v -".into()]),
+        ("1=S3", vec![format!("c chunkp 1 Ck1 {pay}"), format!("c chunkp 1 Ck1 {bad}"), "r chunk 1 Ck1 -".into(), "r pad 1 S0.5.v -".into()]),
+        ("1=T1", vec![format!("c chunkp 1 Ck1 {pay}"), "r chunk 1 Ck1 -".into(), "r tx 1 T0.2.v -".into()]),
+        ("2=R1", vec![format!("c chunkp 2 Ck2 {pay}"), "r chunk 2 Ck2 -".into(), "r reg 2 R0.g.2v -".into()]),
+        ("4=C", vec!["r pad 4 S1.2.v -".into(), "r tx 4 T1.1.v -".into(), "c pad 4 S1.2.v -".into()]),
+        ("-", vec!["c chunk 1 Ck1 -".into(), format!("c chunkp 4 Ck1 {pay}"), "r chunk 4 Ck1 -".into(), format!("c chunkp 3 Ck3 {pay}"), "r chunk 3 C1 -".into()]),
+    ];
+    let mut v = vec![];
+    for (store, ds) in hists {
+        v.push(format!("new {store}"));
+        for d in ds {
+            v.push(format!("deliver {d}"));
+            v.push("dump".to_string());
+        }
+    }
+    v
+}
+
+/// K-f6 corpus: the store drops a held mutable record between non-overlapping validations (capacity prune, range
+/// clean-up, removal of a failed write); a lower version / a smaller set arriving afterwards is a first arrival.
+pub fn removal_corpus() -> Vec<String> {
+    let hists: Vec<Vec<&str>> = vec![
+        vec!["new 1=S3", "deliver r pad 1 S0.7.v -", "dump", "evict 1", "deliver r pad 1 S0.5.v -", "dump"],
+        vec!["new 1=S7", "evict 1", "deliver c pad 1 S0.9.v -", "dump", "deliver r pad 1 S0.2.v -", "dump"],
+        vec!["new 1=T1.2", "evict 1", "deliver r tx 1 T0.3.v -", "dump"],
+        vec!["new 2=R1.2", "evict 2", "deliver r reg 2 R0.g.3v -", "dump"],
+        vec!["new 1=S3,4=S3", "evict 4", "deliver r pad 1 S0.2.v -", "dump", "deliver r pad 1 S0.5.v -", "dump"],
+    ];
+    hists.into_iter().flatten().map(|s| s.to_string()).collect()
+}
+
 /// Deterministic C04 corpus: replicated transaction vectors with mixed owners (first element foreign /
 /// own / invalid) against prior content of the owners involved. Key 1 = owner 0, key 4 = owner 1, key 7 = owner 2.
 pub fn mixed_vector_corpus() -> Vec<String> {
@@ -767,7 +810,14 @@ pub fn big_corpus(thorough: bool) -> Vec<String> {
     .iter()
     .map(|s| s.to_string())
     .collect();
+    // the record a store function BUILDS (held transactions ∪ delivered one): each part about half the limit
+    for l in ["bigm c 0", "bigm r -1"] {
+        v.push(l.to_string());
+    }
     if thorough {
+        for l in ["bigm c 1000000", "bigm r 1000", "bigm c -1", "bigm r 0", "bigm c 4000000"] {
+            v.push(l.to_string());
+        }
         for l in ["big r chunk 1000000", "big r chunk 5242879", "big r pad 4000000", "big c chunkp 1000", "big c padp -1", "big c pad 0", "big r chunk -4000000", "big c junkp 1", "big r junk 1"] {
             v.push(l.to_string());
         }
@@ -868,6 +918,9 @@ impl Gen {
                 for l in mixed_vector_corpus() {
                     g.queue.push_back(l);
                 }
+                for l in squat_corpus() {
+                    g.queue.push_back(l);
+                }
                 for _ in 0..(if n >= 2000 { 600 } else { 60 }) {
                     let l = mixed_vector_case(&mut g.rng);
                     g.queue.push_back(l);
@@ -900,6 +953,12 @@ impl Gen {
                     g.queue.push_back(l);
                 }
                 for l in tx_family_corpus() {
+                    g.queue.push_back(l);
+                }
+                for l in squat_corpus() {
+                    g.queue.push_back(l);
+                }
+                for l in removal_corpus() {
                     g.queue.push_back(l);
                 }
                 g.remaining_histories = n;
@@ -968,7 +1027,10 @@ impl Gen {
         // one scratchpad history in six lives at the top of the counter range
         let base = if fam == "pad" && rng.chance(1, 6) { u64::MAX - 9 } else { 0 };
         let dk = 3 * id + space(fam);
-        let store = if rng.chance(2, 3) {
+        let store = if rng.chance(1, 14) {
+            // K-f5: the key is held by the chunk whose bytes are this address's preimage
+            format!("{dk}=C")
+        } else if rng.chance(2, 3) {
             let d = match fam {
                 "pad" => format!("S{}", base + rng.range(0, 5) + if base > 0 { 4 } else { 0 }),
                 "tx" => format!("T{}", join(&subset(rng, 1, 3, true), ".")),
@@ -983,6 +1045,16 @@ impl Gen {
         for _ in 0..phases {
             if rng.chance(3, 5) {
                 for _ in 0..rng.range(1, 4) {
+                    if rng.chance(1, 9) {
+                        // K-f6: the store drops the key between two validations
+                        self.queue.push_back(format!("evict {dk}"));
+                    }
+                    if rng.chance(1, 10) {
+                        // K-f5: the chunk whose bytes are this key's address preimage (paid upload / replicated copy)
+                        let d = if rng.chance(1, 2) { format!("r chunk {dk} Ck{dk} -") } else { format!("c chunkp {dk} Ck{dk} {}", good_pay(rng)) };
+                        self.queue.push_back(format!("deliver {d}"));
+                        self.queue.push_back("dump".into());
+                    }
                     let f = if cross { *rng.pick(&["pad", "tx"]) } else { fam };
                     let d = mutable_delivery_at(f, id, base, rng);
                     self.queue.push_back(format!("deliver {d}"));
